@@ -63,6 +63,13 @@ type Contract struct {
 	// state; their results are unconstrained.
 	PureFields map[string]bool
 	CallbackMods map[string][]string // callback field -> designators it may modify
+	// Registers: "Type.field" — this function is what the program installs in that function-typed field (a callback
+	// with a `callback` clause): whoever may invoke the field also writes what this function writes.
+	Registers []string
+	// Relies: two-state clauses over quantified objects only (no parameter, receiver or local) that this function
+	// ensures and that are reflexive and transitive (both are obligations): what survives any number of invocations
+	// of it as a callback. Callers of functions that may invoke the callback assume them for the keys it alone writes.
+	Relies []*Clause
 	Reveal     map[string]bool // opaque ghost functions whose definition this function's proof may use
 	// Implements: "Iface.Method" — the method is verified against that interface method's (otherwise assumed)
 	// contract as well: its requires are added to this contract's, its ensures become obligations
@@ -114,9 +121,9 @@ type MemoDecl struct {
 }
 
 var clauseKW = map[string]bool{"scope": true, "noread": true, "implements": true, "ghostset": true, "ints": true, "safety": true, "requires": true, "assume": true, "ensures": true, "aux": true, "modifies": true,
-	"loop": true, "call": true, "callback": true, "reveal": true, "opaque": true, "trusted": true, "inline": true, "pure": true, "float": true}
+	"loop": true, "call": true, "callback": true, "registers": true, "rely": true, "reveal": true, "opaque": true, "trusted": true, "inline": true, "pure": true, "float": true}
 
-var reHead = regexp.MustCompile(`^(requires|assume|ensures|aux|invariant|assert|decreases)(\[[^\]]+\])?\s*(.*)$`)
+var reHead = regexp.MustCompile(`^(requires|assume|ensures|rely|aux|invariant|assert|decreases)(\[[^\]]+\])?\s*(.*)$`)
 
 // ParseContracts parses the //@ lines of one contracts_verif.go file.
 func ParseContracts(filename, pkgPath string, src []byte) (*PkgContracts, error) {
@@ -330,6 +337,10 @@ func parseClause(c *Contract, text, loc string) error {
 		for _, f := range fields[1:] {
 			c.Reveal[strings.Trim(f, ",")] = true
 		}
+	case "registers":
+		for _, f := range fields[1:] {
+			c.Registers = append(c.Registers, strings.Trim(f, ","))
+		}
 	case "callback":
 		// callback <field> modifies nothing
 		if len(fields) < 2 {
@@ -454,6 +465,14 @@ func parseClause(c *Contract, text, loc string) error {
 				cl.Label = fmt.Sprintf("e%d", len(c.Ensures)+1)
 			}
 			c.Ensures = append(c.Ensures, cl)
+		case "rely":
+			if cl.Label == "" {
+				cl.Label = fmt.Sprintf("%d", len(c.Relies)+1)
+			}
+			cl.Label = "rely-" + cl.Label
+			cl.Kind = "ensures"
+			c.Ensures = append(c.Ensures, cl)
+			c.Relies = append(c.Relies, cl)
 		case "aux":
 			if cl.Label == "" {
 				cl.Label = fmt.Sprintf("a%d", len(c.Aux)+1)
